@@ -5,7 +5,7 @@
 #include "vstd_c.h"
 #include "ghost.h"
 typedef unsigned long size_t;
-int gh_lc_phase, gh_queue_ran; unsigned long gh_n1, gh_absent, gh_tasks; unsigned gh_tasks_or;
+int gh_lc_phase, gh_queue_ran; unsigned long gh_n1, gh_absent, gh_present, gh_tasks; int gh_type2; unsigned gh_tasks_or;
 
 /* the notifier accumulates task statuses and lists a binary as changed when the change bit is set */
 void w_notify(unsigned status_before, unsigned task_status, size_t changed_before, unsigned long *out);
@@ -22,6 +22,7 @@ CANARY_w_elf_size_is_greater
 ;
 
 unsigned w_compare_userspace(int parallel, size_t num_workers, int verbose, int show_added, unsigned long *out);
+int w_elf_type_enum(int i);
 #define POST(c) __CPROVER_assert(c, "postcondition: " #c)
 
 void h_notify(void)
@@ -46,7 +47,7 @@ void h_compare_userspace(void)
 {
   unsigned long out[2];
   gh_n1 = nondet_ulong(); gh_tasks_or = nondet_unsigned(); gh_lc_phase = nondet_int();
-  gh_absent = 0; gh_tasks = 0; gh_queue_ran = 0;
+  gh_absent = 0; gh_present = 0; gh_tasks = 0; gh_queue_ran = 0; gh_type2 = nondet_int();
   int in_parallel = nondet_int(), in_verbose = nondet_int(), in_show_added = nondet_int(); size_t in_num_workers = nondet_ulong();
   __CPROVER_assume(gh_n1 <= 64 && (gh_tasks_or & ~15u) == 0 && (!in_parallel || in_num_workers >= 1));
   unsigned ret = w_compare_userspace(in_parallel, in_num_workers, in_verbose, in_show_added, out);
@@ -59,7 +60,12 @@ void h_compare_userspace(void)
   /* and nothing else is: exit 0 iff nothing was removed and every pair compared clean */
   POST(ret == ((out[0] > 0 ? 12u : 0u) | (gh_tasks > 0 ? gh_tasks_or : 0u)));
   /* every binary of the first package is either compared, removed or of a kind that is skipped */
-  POST(out[0] == gh_absent && gh_absent + gh_tasks <= gh_n1);
+  POST(out[0] == gh_absent && gh_absent + gh_present == gh_n1);
+  /* every matched pair whose file (in the second package) is a DSO or an executable is compared;
+     (enumerator values are read from the real enum) */
+#define COMPARABLE2 (gh_type2 == w_elf_type_enum(0) || gh_type2 == w_elf_type_enum(1) || gh_type2 == w_elf_type_enum(2))
+  POST(COMPARABLE2 ==> gh_tasks == gh_present);
+  POST(!COMPARABLE2 ==> gh_tasks == 0);
   POST(gh_tasks > 0 ==> gh_queue_ran);
   CANARY_h_compare_userspace;
 }
